@@ -37,6 +37,15 @@ structure ArgInfo where
   small : Option Nat
 deriving DecidableEq, Repr, Inhabited
 
+/-- everything the translator derives from the source for one class: `sizeof` of the header image, the one-statement
+    accessors it recognised (in the order of the class's rows in `Spec.rows`) and the parameter domain of every setter -/
+structure ClassGen where
+  name : String
+  imageLen : Nat
+  simple : List SimpleAcc
+  args : List ArgInfo
+deriving Repr, Inhabited
+
 /-- host load of a member from the image number `X` of an `L`-byte image in view `o`.
     Big-endian view: a member inside one byte is a run of `X`; a whole `k`-byte integer is loaded little-endian
     by the host, i.e. it is the byte swap of the run. -/
